@@ -48,6 +48,31 @@ def gen_capture_probe(src, opts):
     rvar = ("var", rname, ("real", g.real_shapes[rname]))
     if g.real_shapes[rname] != ():
         rvar = ("unp", "sum", (None, False), rvar)
+    scal = sorted(n_ for n_, sh in g.real_shapes.items() if sh == ())
+    if len(scal) >= 2 and g.chance(0.3):
+        # the same lazy binder nested in itself through a substitution, then only the outer copy is opened:
+        # B(w = B(x = 'x2'))(x = value)
+        p_, q_ = scal[0], scal[1]
+        tj = ("ten", ((j, sj),), (), "real", g.real_data(sj), False)
+        body = ("bin", "mul", ("bin", g.pick(["mul", "add"]), tj, ("var", p_, ("real", ()))), ("var", q_, ("real", ())))
+        kind = g.pick(["red", "red", "indep", "lam", "integrate"])
+        if kind == "red":
+            B = ("red", g.pick(["add", "logaddexp", "max"]), body, ((j, sj),))
+        elif kind == "lam":
+            B = ("unp", "sum", (None, False), ("lam", j, sj, body))
+        elif kind == "integrate":
+            B = ("integrate", ("ten", ((j, sj),), (), "real", g.real_data(sj), False), body, ((j, sj),))
+        else:
+            # Independent over (j, p_): the new array-valued input is named like the diag variable or differently
+            B = ("indep", body, g.pick([p_, "rr" + p_]), j, p_)
+        binp = typeof(B)[0]
+        pin = [n_ for n_ in (p_, "rr" + p_) if n_ in binp][0]
+        pdom = binp[pin]
+        inner = ("sub", B, ((pin, ("pyname", pin + "2")),))
+        nested = ("sub", B, ((q_, inner),))
+        n_el = g.numel(pdom[1])
+        val = ("pynum", 0.5) if pdom[1] == () and g.chance(0.5) else ("ten", (), tuple(pdom[1]), "real", g.real_data(n_el), False)
+        return ("sub", nested, ((pin, val),))
     mention_j = g.chance(0.5)
     tk = ("ten", ((kname, sk),) + (((j, sj),) if mention_j else ()), (), "real", g.real_data(sk * (sj if mention_j else 1)), False)
     body = ("bin", g.pick(["add", "mul"]), rvar, tk) if g.chance(0.8) else tk
